@@ -301,3 +301,65 @@ Example C03_unique_example :
 Proof.
   split; [apply FifoGenEq.init_gen_eq|]. vm_compute. repeat split; reflexivity.
 Qed.
+
+(* ---- every release produces AT MOST ONE task message, over the whole history,
+   with refused run ids and jobs listed twice (Proofs/SchedFaultOnce.v) ----
+   For a unit u = (x, t) and a history xs from boot:
+     released c (init c) xs u = how often a dispatch of xs moved t from pending to
+                                executing at x (not in `doing` before, in `doing` after)
+     sent c (init c) xs u     = how many task messages for u the dispatches of xs made
+                                (growth of the units queued for / handed to a worker)
+     pk c s u                 = what the farm still holds for u at the end: 1 if t is
+                                in the `do` set of x (tasks, regressions); the number
+                                of copies of x on the job list (analyses, all-targets)
+   NO hypothesis on the history (any replies, failures with purge, rebuilds, any
+   number of refused requests, jobs released again while kept and listed twice):
+   a kept unit has not been sent for its release, and whatever the retry does it
+   makes at most one message per release.  What remains open for literal single
+   flight with refused requests is exactly what is open without them: a purge or
+   a foreign reply that clears `doing` of a unit whose message is still out
+   (C03_single_flight_refuted; C03_single_flight_clean assumes it away). *)
+From DV Require Proofs.SchedFaultOnce.
+
+Theorem C03_each_release_sent_at_most_once_faults : forall c xs x t,
+  SchedFaultOnce.sent c (init c) xs (x, t) + SchedFaultOnce.pk c (xrun c (init c) xs) (x, t)
+  <= SchedFaultOnce.released c (init c) xs (x, t).
+Proof. intros c xs x t. apply SchedFaultOnce.sent_le_released. Qed.
+Print Assumptions C03_each_release_sent_at_most_once_faults.
+
+(* the same from any state that satisfies the invariants (every state of every
+   history does: SchedFaultOnce.init_once + xstep_once) *)
+Theorem C03_each_release_sent_at_most_once_from : forall c s xs u, SchedFaultOnce.Once c s ->
+  SchedFaultOnce.sent c s xs u + SchedFaultOnce.pk c (xrun c s xs) u
+  <= SchedFaultOnce.released c s xs u + SchedFaultOnce.pk c s u.
+Proof. intros c s xs u O. apply SchedFaultOnce.once_run. exact O. Qed.
+Print Assumptions C03_each_release_sent_at_most_once_from.
+
+(* a unit the farm keeps after a refused request has strictly fewer messages
+   than releases: it was not sent for this release *)
+Theorem C03_kept_unit_not_sent_yet : forall c xs x t,
+  asp c x = false -> In t (do_ (getn (ns (xrun c (init c) xs)) x)) ->
+  SchedFaultOnce.sent c (init c) xs (x, t) < SchedFaultOnce.released c (init c) xs (x, t).
+Proof.
+  intros c xs x t A H. pose proof (SchedFaultOnce.sent_le_released c xs (x, t)) as B.
+  unfold SchedFaultOnce.pk, SchedFaultOnce.dpk in B. cbn [fst snd] in B. rewrite A in B.
+  apply SchedLib.mem_In in H. rewrite H in B. apply Nat.lt_le_trans with (2 := B).
+  rewrite Nat.add_assoc, Nat.add_1_r. apply Nat.lt_succ_r. apply Nat.le_add_r.
+Qed.
+Print Assumptions C03_kept_unit_not_sent_yet.
+
+(* non-vacuity: the history of C03_faults_example (job 1 kept, released again for a
+   second target, on the list twice), then the retry: each of its two units was
+   released once and is sent once; before the retry it is held and not sent *)
+Example C03_once_example :
+  let c := {| gnodes := [ {| kids := []; anc := []; gfac := Task; lvl := 0; ins := [] |};
+                          {| kids := []; anc := []; gfac := Task; lvl := 0; ins := [] |} ];
+              gfb := []; gtargets := [1; 2] |} in
+  let xs := [Ev (Reg 1 0 true); Ev (Org [0; 1] None [1]); TickFault 2; Ev (Org [1] None [2]); TickFault 1] in
+  jobs (xrun c (init c) xs) = [1; 1] /\
+  (SchedFaultOnce.sent c (init c) xs (1, 1), SchedFaultOnce.released c (init c) xs (1, 1),
+   SchedFaultOnce.pk c (xrun c (init c) xs) (1, 1)) = (0, 1, 1) /\
+  map (fun u => (SchedFaultOnce.sent c (init c) (xs ++ [Ev Tick]) u,
+                 SchedFaultOnce.released c (init c) (xs ++ [Ev Tick]) u)) [(0, 1); (1, 1); (1, 2)]
+    = [(1, 1); (1, 1); (1, 1)].
+Proof. vm_compute. repeat split; reflexivity. Qed.
